@@ -20,11 +20,6 @@ impl CallCounter {
             .fetch_add(1, core::sync::atomic::Ordering::SeqCst)
     }
 
-    #[cfg(unimock_verif)]
-    pub(crate) fn verif_actual_count(&self) -> &AtomicUsize {
-        &self.actual_count
-    }
-
     pub fn verify(
         &self,
         info: &MockFnInfo,
@@ -113,5 +108,12 @@ impl Display for NCalls {
             1 => write!(f, "1 call"),
             more => write!(f, "{more} calls"),
         }
+    }
+}
+
+#[cfg(unimock_verif)]
+impl CallCounter {
+    pub(crate) fn verif_actual_count(&self) -> &AtomicUsize {
+        &self.actual_count
     }
 }
